@@ -1,1 +1,98 @@
-From Verif Require Import Model.Negotiation.
+(* C04 negotiationneeded fires only in stable state, once per needed
+   negotiation. Statements only; proofs live in Proofs/Negotiation.v.
+
+   Partial by the property's own premise: calls are sequential and each call's
+   queued work finishes before the next call (concurrent callers excluded). The
+   interleaving that remains inside one call -- a queued negotiationNeededOp
+   finding the queue busy with the call's own later Enqueue -- is the schedule
+   argument [sched], over which every theorem quantifies. *)
+From Coq Require Import List NArith String.
+Import ListNotations.
+From Verif Require Import Common.Base Model.OfferShape Model.Negotiation Proofs.Negotiation.
+Open Scope string_scope.
+
+(* Sentence 1, over every history, every start state and every schedule: each
+   handler invocation happens with signaling state stable and the connection
+   not closed. *)
+Theorem c04_only_stable_open : forall h s,
+  Forall (Forall (fun f => f_sig f = Stable /\ f_closed f = false)) (snd (nrun s h)).
+Proof. exact nrun_fires_ok. Qed.
+Print Assumptions c04_only_stable_open.
+
+(* the schedule inside a call has no influence on state, result or firings *)
+Theorem c04_schedule_irrelevant : forall s o sched, nstep s o sched = nstep s o [].
+Proof. exact nstep_sched_irrelevant. Qed.
+Print Assumptions c04_schedule_irrelevant.
+
+(* states reached from a fresh PeerConnection satisfy the invariant the next
+   theorems assume, and checkNegotiationNeeded never dereferences a nil remote
+   description there *)
+Theorem c04_reachable_invariant : forall always h, Inv (n_pc (fst (nrun (nn_init always) h))).
+Proof. exact reachable_inv. Qed.
+Print Assumptions c04_reachable_invariant.
+
+Theorem c04_check_never_panics : forall p, Inv p -> exists b, check_negotiation_needed p = Ok b.
+Proof. exact check_never_panics. Qed.
+Print Assumptions c04_check_never_panics.
+
+(* Sentence 2 -- FULL statement: in a reachable state with signaling stable, not
+   closed and [[NegotiationNeeded]] clear, a successful AddTransceiverFromKind /
+   AddTransceiverFromTrack / AddTrack (new or reused transceiver) / first
+   CreateDataChannel is followed by exactly one firing once the queue is drained.
+   The faithful model refutes it for AddTrack on a reusable transceiver whose
+   m-section in the current local description already announces that very
+   track (c04_fires_after_change_refuted). Proved with [change_op]'s premises:
+   AddTrack: not that case (readvertised = false); CreateDataChannel: it is the
+   first one and the current local description has no application section. *)
+Theorem c04_fires_after_change_partial : forall s o sched s' out fs,
+  Inv (n_pc s) -> p_sig (n_pc s) = Stable -> p_closed (n_pc s) = false -> n_flag s = false ->
+  change_op (n_pc s) o ->
+  nstep s o sched = (s', out, fs) -> o_status out = "ok" ->
+  fs = [{| f_sig := Stable; f_closed := false |}] /\ n_flag s' = true.
+Proof. exact fires_after_change. Qed.
+Print Assumptions c04_fires_after_change_partial.
+
+Theorem c04_fires_after_change_refuted :
+  let s := fst (nrun (nn_init false) nofire_prefix) in
+  p_sig (n_pc s) = Stable /\ p_closed (n_pc s) = false /\ n_flag s = false
+  /\ add_track_reuse (p_tcvs (n_pc s)) Video (w_enc 2) <> None
+  /\ o_status (snd (fst (nstep s (OAddTrack Video (w_enc 2)) []))) = "ok"
+  /\ snd (nstep s (OAddTrack Video (w_enc 2)) []) = [].
+Proof. exact nofire_witness. Qed.
+Print Assumptions c04_fires_after_change_refuted.
+
+(* Sentence 3 -- FULL statement: between a firing and the completion of the next
+   offer/answer exchange there is no second firing. The faithful model refutes
+   it (c04_no_refire_refuted): negotiationNeededOp clears the flag when
+   negotiation is no longer needed (W3C 4.7.3.2.4), and a later change fires
+   again. Proved: a firing sets the flag, and while the flag is set nothing
+   fires over any stretch of calls in which no exchange completes and
+   negotiation stays needed. *)
+Theorem c04_firing_sets_flag : forall s o sched s' out fs,
+  nstep s o sched = (s', out, fs) -> fs <> [] -> n_flag s' = true.
+Proof. exact firing_sets_flag. Qed.
+Print Assumptions c04_firing_sets_flag.
+
+Theorem c04_no_refire_partial : forall h s,
+  n_flag s = true -> still_needed s h -> Forall (fun fs => fs = []) (snd (nrun s h)).
+Proof. exact no_refire. Qed.
+Print Assumptions c04_no_refire_partial.
+
+Theorem c04_no_refire_refuted :
+  fire_counts (nn_init false) refire_history = [1; 0; 0; 0; 1; 0; 1]
+  /\ stable_marks (nn_init false) refire_history = [false; false; false; true; false; false; false].
+Proof. exact refire_witness. Qed.
+Print Assumptions c04_no_refire_refuted.
+
+(* premises are satisfiable: a fresh connection, AddTrack fires once; a second
+   AddTransceiver before any exchange is a non-empty still_needed stretch *)
+Example c04_fires_nontrivial :
+  snd (nstep (nn_init false) (OAddTrack Video (w_enc 1)) [true; false])
+  = [{| f_sig := Stable; f_closed := false |}].
+Proof. reflexivity. Qed.
+
+Example c04_still_needed_nontrivial :
+  let s := fst (fst (nstep (nn_init false) (OAddTrack Video (w_enc 1)) [])) in
+  n_flag s = true
+  /\ still_needed s (nosched [OAddTcvKind Audio (Some Recvonly) (w_enc 0); OCreateOffer; OSetLocal TOffer]).
+Proof. vm_compute. repeat split. Qed.
